@@ -39,14 +39,14 @@ type Event struct {
 
 // TxnRec is what one transaction did and observed.
 type TxnRec struct {
-	ID      string   `json:"id"`
-	Ops     []OpRec  `json:"ops"`
-	Begin   int64    `json:"begin"`  // first operation
-	CallSeq int64    `json:"call"`   // commit called
-	RetSeq  int64    `json:"ret"`    // commit returned
-	Err     string   `json:"err"`    // commit error ("" = committed)
-	Aborted bool     `json:"aborted"`// voluntary rollback
-	OpErr   string   `json:"op_err,omitempty"`
+	ID      string  `json:"id"`
+	Ops     []OpRec `json:"ops"`
+	Begin   int64   `json:"begin"`   // first operation
+	CallSeq int64   `json:"call"`    // commit called
+	RetSeq  int64   `json:"ret"`     // commit returned
+	Err     string  `json:"err"`     // commit error ("" = committed)
+	Aborted bool    `json:"aborted"` // voluntary rollback
+	OpErr   string  `json:"op_err,omitempty"`
 }
 
 // OpRec is one operation with what it returned.
@@ -54,8 +54,8 @@ type OpRec struct {
 	Store string `json:"s"`
 	Kind  string `json:"op"` // read|rmw|add|remove|update
 	K     string `json:"k"`
-	V     string `json:"v,omitempty"`     // value written
-	Saw   string `json:"saw,omitempty"`   // value read
+	V     string `json:"v,omitempty"`   // value written
+	Saw   string `json:"saw,omitempty"` // value read
 	Found bool   `json:"found"`
 	OK    bool   `json:"ok"`
 }
